@@ -264,10 +264,20 @@ func (c *channel) sender() {
 func (c *channel) receiver() {
 	for {
 		resp := newMessage(responseType)
+		// Do not hold streamMut while waiting for the next message: reconnect
+		// needs the write lock, and would wait forever behind a reader that
+		// is parked on an idle, healthy stream.
 		c.streamMut.RLock()
-		err := c.gorumsStream.RecvMsg(resp)
+		stream := c.gorumsStream
+		c.streamMut.RUnlock()
+		err := stream.RecvMsg(resp)
 		if err != nil {
-			c.streamBroken.set()
+			c.streamMut.RLock()
+			if stream == c.gorumsStream {
+				// only a failure of the current stream makes the channel broken;
+				// if the sender has replaced the stream meanwhile, it is healthy.
+				c.streamBroken.set()
+			}
 			c.streamMut.RUnlock()
 			c.setLastErr(err)
 			// we only reach this point when the stream failed AFTER a message
@@ -278,7 +288,6 @@ func (c *channel) receiver() {
 			// This is necessary when streaming is enabled.
 			c.reconnect(-1)
 		} else {
-			c.streamMut.RUnlock()
 			err := status.FromProto(resp.Metadata.GetStatus()).Err()
 			c.routeResponse(resp.Metadata.MessageID, response{nid: c.node.ID(), msg: resp.Message, err: err, method: resp.Metadata.Method})
 		}
@@ -332,8 +341,11 @@ func (c *channel) reconnect(maxRetries float64) {
 			return
 		}
 		c.streamCtx, c.cancelStream = context.WithCancel(c.parentCtx)
-		c.gorumsStream, err = c.gorumsClient.NodeStream(c.streamCtx)
+		// keep the old stream on failure: the receiver compares with it
+		var stream ordering.Gorums_NodeStreamClient
+		stream, err = c.gorumsClient.NodeStream(c.streamCtx)
 		if err == nil {
+			c.gorumsStream = stream
 			c.streamBroken.clear()
 			c.streamMut.Unlock()
 			// the stream is up again; don't let another goroutine
